@@ -33,6 +33,7 @@ VERUS_ARGS = ['--multiple-errors', '50', '--output-json', '--time', '--error-for
 KINDS = [
     ('postcondition not satisfied', 'post'),
     ('precondition not satisfied', 'pre'),
+    ('precondition not met', 'pre'),     # built-in preconditions, e.g. 'index in bounds for this access': the real code would panic
     ('invariant not satisfied before loop', 'inv-entry'),
     ('invariant not satisfied at end of loop body', 'inv-end'),
     ('loop invariant', 'inv'),
@@ -397,6 +398,15 @@ def main():
     kf_dep = {f['obligation']: f for f in known.get('findings', []) if f['property'] in deps and f['obligation'] not in kf}
     undecided = [r for r in results if r['status'] != 'ok']
     lock_missing = check_lock(results)
+    # A function that has a COMPLETE Kani harness (loop-free, full-domain symbolic inputs: a proof, DESIGN 10.1) named in the
+    # harness header as `covers=<unit>::<item>` is decided by CBMC when Verus cannot re-prove its contract on changed text
+    # (bit-vector or nonlinear reasoning the SMT mode does not do unprompted): such a Verus failure is a proof gap, not a violation.
+    proved_by_kani = {}
+    for e in extra:
+        for h in e.get('harnesses', []):
+            if h.get('kind') == 'complete' and h.get('status') == 'pass' and h.get('covers'):
+                proved_by_kani[h['covers']] = h['id']
+    proof_gaps = []
     violations = []
     knownhits = []
     dephits = []
@@ -418,6 +428,11 @@ def main():
             if f.get('item') in lost_items and (set(deps) & set(f['tags'])):
                 undecided.append({'unit': r['unit'], 'status': 'undecided',
                                   'reason': 'obligation %s fails, but proof hints of %s lost their anchors (the function was restructured): not decided' % (f['id'], f['item'])})
+                continue
+            if (set(deps) & set(f['tags'])) and ('%s::%s' % (r['unit'], f.get('item'))) in proved_by_kani:
+                hid = proved_by_kani['%s::%s' % (r['unit'], f.get('item'))]
+                proof_gaps.append({'obligation': f['id'], 'decided_by': hid})
+                print('PROOF-GAP: %s not re-proved by Verus on the current text; the function is decided by the complete harness %s (passed)' % (f['id'], hid))
                 continue
             if set(deps) & set(f['tags']):
                 failing_ids.add(f['id'])
@@ -502,6 +517,7 @@ def main():
             'verifier_runs': {'executed_now': CACHE['misses'], 'reused_from_cache': CACHE['hits'],
                               'note': 'a verifier run is reused only when the generated file (regenerated from /repo on this run) and the command line are byte-identical to an earlier run; set VERIF_NOCACHE=1 to force re-verification'},
             'extra_checks': [{k: v for k, v in e.items() if k not in ('violations',)} for e in extra],
+            'verus_proof_gaps_decided_by_complete_kani_harness': proof_gaps,
             'known_findings_reported': [k['what'] for _, k in knownhits],
             'known_findings_of_properties_this_one_builds_on': ['%s: %s' % (k['property'], k['obligation']) for _, k in dephits],
             'not_decided': spec.get('not_decided', []),
